@@ -1,6 +1,7 @@
 package harness
 
 import (
+	"encoding/base64"
 	"math/rand"
 	"strings"
 )
@@ -338,6 +339,119 @@ func GenC12(rng *rand.Rand, thorough bool, emit func(*Sx)) {
 								emit(RunConv(f.caseOf("C12", segStream(rng, f.out, f.cuts, idx%2, rawEOF))))
 							}
 						}
+					}
+				}
+			}
+		}
+	}
+}
+
+// GenC09: AUTH exchanges against the real server: 1..3-step scripted SASL servers x what the client
+// sends at each step (initial response, '=', nothing, bad base64, '*', arbitrary octets) x where the
+// connection is allowed to authenticate (insecure auth allowed on plaintext, implicit TLS, or not).
+func GenC09(rng *rand.Rand, thorough bool, emit func(*Sx)) {
+	b64 := func(b []byte) string { return base64.StdEncoding.EncodeToString(b) }
+	type cstep struct {
+		line string // what the client sends for this step ("" for the initial step = no initial response)
+		kind string // ok bad star
+	}
+	initial := []cstep{{"", "ok"}, {"=", "ok"}, {b64([]byte("\x00user\x00pass")), "ok"}, {"!!!notbase64", "bad"}, {b64([]byte{0, 255, 13, 10}), "ok"}}
+	later := []cstep{{b64([]byte("resp")), "ok"}, {"=", "ok"}, {"", "ok"}, {"*", "star"}, {"%%%", "bad"}, {b64([]byte{0x80, 0, 0xff}), "ok"}}
+	chals := [][]byte{nil, []byte("challenge"), {0, 255, 10, 13}, []byte("a")}
+	n := 0
+	for mode := 0; mode < 3; mode++ { // 0 plaintext+insecure, 1 implicit TLS, 2 plaintext without insecure
+		for nsteps := 0; nsteps <= 3; nsteps++ {
+			for _, fin := range []string{"done", "err", "smtperr", "exhaust"} {
+				for _, ini := range initial {
+					for li, lat := range later {
+						n++
+						if !thorough && (n+li)%5 != 0 {
+							continue
+						}
+						cfg := DefaultCfg()
+						cfg.HasAuth, cfg.Auth = true, []string{"PLAIN", "XSTEPS"}
+						switch mode {
+						case 0:
+							cfg.Insecure = true
+						case 1:
+							cfg.ImplicitTLS = true
+						}
+						// the scripted SASL server: nsteps challenges, then the final step
+						var steps []SaslStep
+						for i := 0; i < nsteps; i++ {
+							steps = append(steps, SaslStep{Challenge: chals[(n+i)%len(chals)]})
+						}
+						switch fin {
+						case "done":
+							steps = append(steps, SaslStep{Done: true})
+						case "err":
+							steps = append(steps, SaslStep{Err: BPlain("bad credentials")})
+						case "smtperr":
+							steps = append(steps, SaslStep{Err: BSmtp(535, [3]int{5, 7, 8}, "Authentication failed")})
+						}
+						f := newF(cfg)
+						f.hello()
+						f.script.Auth = []AuthPlan{{Start: BNil, Steps: steps}}
+						line := "AUTH XSTEPS"
+						if ini.line != "" {
+							line += " " + ini.line
+						}
+						authed := false
+						if mode == 2 {
+							f.cmd(line, 523)
+						} else if ini.kind == "bad" {
+							f.cmd(line, 454)
+							f.script.Auth = nil // the backend is not consulted: the scripted exchange is not consumed
+						} else {
+							// run the exchange as the property describes it
+							f.out = append(f.out, line...)
+							f.out = append(f.out, '\r', '\n')
+							i := 0
+							for {
+								var st SaslStep
+								if i < len(steps) {
+									st = steps[i]
+								} else {
+									st = SaslStep{Done: true}
+								}
+								if st.Err.Kind == "smtp" {
+									f.expect(st.Err.Code)
+									break
+								}
+								if st.Err.Kind == "plain" {
+									f.expect(454)
+									break
+								}
+								if st.Done {
+									f.expect(235)
+									authed = true
+									break
+								}
+								f.expect(334)
+								f.out = append(f.out, lat.line...)
+								f.out = append(f.out, '\r', '\n')
+								if lat.kind == "star" {
+									f.expect(501)
+									break
+								}
+								if lat.kind == "bad" {
+									f.expect(454)
+									break
+								}
+								i++
+							}
+						}
+						// the connection is in command mode again, authenticated iff the exchange succeeded
+						f.cmd("NOOP", 250)
+						if authed {
+							f.cmd("AUTH PLAIN", 503)
+						} else if mode == 2 {
+							f.cmd("AUTH PLAIN", 523)
+						} else {
+							f.cmd("AUTH PLAIN AGEAYg==", 235) // the default plan of the next exchange succeeds
+						}
+						f.cmd("QUIT", 221)
+						emit(RunConv(f.caseOf("C09", segStream(rng, f.out, nil, n%4, rawEOF))))
 					}
 				}
 			}
